@@ -582,8 +582,49 @@ func rootOfArgumentScope(first ssa.Value, depth int) (string, bool) {
 			}
 		}
 	}
-	_, isParam := b.(*ssa.Parameter)
+	p, isParam := b.(*ssa.Parameter)
+	if isParam {
+		// a *Scope handed to a private builder method (`func (s *Scope) add(…)`): the
+		// scope being appended to is whatever the callers pass — a fresh local is not
+		// an argument scope
+		if decided, fresh := builderReceiverIsFresh(p, depth); decided {
+			return fld, !fresh
+		}
+	}
 	return fld, isParam
+}
+
+// builderReceiverIsFresh: p is a pointer parameter of a private helper and
+// every call passes the address of a local variable of the caller (or its own
+// such parameter).
+func builderReceiverIsFresh(p *ssa.Parameter, depth int) (decided, fresh bool) {
+	if _, isPtr := p.Type().Underlying().(*types.Pointer); !isPtr || depth <= 0 {
+		return false, false
+	}
+	h := p.Parent()
+	sites := privateCallSites(h)
+	pi := -1
+	for i, q := range h.Params {
+		if q == p {
+			pi = i
+		}
+	}
+	if len(sites) == 0 || pi < 0 {
+		return false, false
+	}
+	for _, s := range sites {
+		a := facts.ResolveFree(s.Common().Args[pi])
+		if _, isAlloc := a.(*ssa.Alloc); isAlloc {
+			continue
+		}
+		if q, isP := a.(*ssa.Parameter); isP {
+			if d, f := builderReceiverIsFresh(q, depth-1); d && f {
+				continue
+			}
+		}
+		return true, false
+	}
+	return true, true
 }
 
 func mentionsScope(fn *ssa.Function) bool {
